@@ -180,41 +180,49 @@ def run(ctx):
     ctx.ob('OFFSET-SYM', 'psf_get_filelen:write', bool(sub), f.loc(sub[0]) if sub else f.loc(f.body), 'filelen - psf->fileoffset %s' % ('present' if sub else 'MISSING'), None)
 
     # ------------------------------------------------------------------ EMBED
-    ctx.rule('EMBED', 'psf_open_file: the post-open embedding whitelist (under fileoffset > 0) is exactly {WAV, WAVEX, AIFF, AU, MPEG, FLAC} and anything else fails with SFE_NO_EMBED_SUPPORT; '
-             'an embedded write open positions at the end of the container (psf_fseek (psf, 0, SEEK_END)) before recording fileoffset = psf_ftell (psf); RDWR is refused', floor=3)
+    ctx.rule('EMBED', 'psf_open_file, explored per container with fileoffset > 0: for WAV, WAVEX, AIFF, AU, MPEG, FLAC the refusal SFE_NO_EMBED_SUPPORT is unreachable, for every other container no path reaches the success return; '
+             'an embedded write open positions at the end of the container (psf_fseek (psf, 0, SEEK_END)) before recording fileoffset = psf_ftell (psf); RDWR is refused', floor=25)
     f = prog.fn('psf_open_file', 'sndfile.c')
     E = prog.enums
     want = {E[k] for k in ('SF_FORMAT_WAV', 'SF_FORMAT_WAVEX', 'SF_FORMAT_AIFF', 'SF_FORMAT_AU', 'SF_FORMAT_MPEG', 'SF_FORMAT_FLAC')}
-    found = None
-    for n in f.walk():
-        # the switch whose default arm refuses embedding (recognised by what it does, not by the name of its subject)
-        if n['k'] == 'SwitchStmt' and any('SFE_NO_EMBED_SUPPORT' in f.s(x) for d_ in f.walk(n['body']) if d_['k'] == 'DefaultStmt' for x in f.walk(d_)):
-            cases = {c['cv'] for c in f.walk(n['body']) if c['k'] == 'CaseStmt' and 'cv' in c}
-            dflt = [c for c in f.walk(n['body']) if c['k'] == 'DefaultStmt']
-            errs = [f.s(x) for d in dflt for x in f.walk(d) if x['k'] == 'BinaryOperator' and x['op'] == '=']
-            found = (cases, errs, n)
-    if found is None:
-        # fallback: the switch over container constants nested under a test of psf->fileoffset (so that a default arm that lost its refusal is reported, not lost)
-        for n in f.walk():
-            if n['k'] == 'SwitchStmt' and any(a_['k'] == 'IfStmt' and 'fileoffset' in f.s(a_['cond']) for a_ in f.ancestors(n)):
-                cases = {c['cv'] for c in f.walk(n['body']) if c['k'] == 'CaseStmt' and 'cv' in c}
-                if {E['SF_FORMAT_WAV'], E['SF_FORMAT_AIFF'], E['SF_FORMAT_AU']} <= cases:
-                    dflt = [c for c in f.walk(n['body']) if c['k'] == 'DefaultStmt']
-                    errs = [f.s(x) for d in dflt for x in f.walk(d) if x['k'] == 'BinaryOperator' and x['op'] == '=']
-                    found = (cases, errs, n)
-    ctx.require(found is not None, 'embedding whitelist switch not found in psf_open_file')
-    ctx.ob('EMBED', 'whitelist', found[0] == want and any('SFE_NO_EMBED_SUPPORT' in e for e in found[1]), f.loc(found[2]),
-           'whitelist %s, default -> %s' % (sorted(hex(c) for c in found[0]), found[1]), None)
-    tells = [(lv, n, rhs) for (lv, n, rhs) in assigned_lvalues(f) if lv == 'psf->fileoffset' and rhs is not None and f.unwrap(rhs).get('callee') == 'psf_ftell']
+    # what the open path decides, not how it is written (a switch in psf_open_file, a predicate helper, a table): psf_open_file is explored for every container
+    # with the stream at an offset inside another file; the refusal must be unreachable for the six containers that may be embedded, and for every other container no
+    # path may reach the success return
+    from engine.peval import PEval as _PE14
+    pe14 = _PE14(prog, sticky=('sf.format', 'file.mode', 'sf.channels', 'sf.samplerate', 'endian', '->fileoffset'), effects=eff)
+    majors = sorted({v_ for k_, v_ in E.items() if k_.startswith('SF_FORMAT_') and (v_ & 0x0FFF0000) and not (v_ & 0xFFFF) and k_ not in ('SF_FORMAT_TYPEMASK',)})
+    ctx.require(len(majors) >= 25, 'only %d container constants found' % len(majors))
+    names = {v_: k_ for k_, v_ in E.items() if k_.startswith('SF_FORMAT_') and v_ in majors}
+
+    def explore14(fmt, mode, off=100):
+        env = {'psf->sf.format': fmt, 'psf->sf.channels': 1, 'psf->sf.samplerate': 44100, 'sfinfo->format': fmt, 'sfinfo->channels': 1, 'sfinfo->samplerate': 44100,
+               'psf->file.mode': mode, 'psf->error': 0, 'psf->fileoffset': off}
+        r = pe14.explore(f, env)
+        pe14.memo.clear()
+        blob = [str(x[2]) for x in r.local_assigns] + [str(x) for x in r.store_exprs] + [str(x) for x in r.ret_exprs]
+        succ = any(fn == 'psf_open_file' and v != 0 for (fn, line, v) in r.ret_sites)
+        return succ, blob
+    for c_ in majors:
+        succ, blob = explore14(c_ | E['SF_FORMAT_PCM_16'], E['SFM_READ'])
+        refused = any('SFE_NO_EMBED_SUPPORT' in x for x in blob)
+        if c_ in want:
+            ctx.ob('EMBED', 'whitelist:%s' % names[c_], not refused, f.loc(f.body), '%s may be embedded: the refusal SFE_NO_EMBED_SUPPORT is %s' % (names[c_], 'unreachable' if not refused else 'REACHABLE'), None)
+        else:
+            ctx.ob('EMBED', 'whitelist:%s' % names[c_], not succ, f.loc(f.body), '%s at an offset inside another file: %s' % (names[c_], 'the open cannot succeed%s' % (' (SFE_NO_EMBED_SUPPORT)' if refused else '')
+                   if not succ else 'the open has a feasible success path: a container outside the whitelist is accepted as an embedded file'), None)
+    # the write positioning lives in psf_open_file or in a static helper of sndfile.c it calls
+    grp14 = [f] + [g for c2 in f.calls() for g in prog.fns.get(c2.get('callee') or '', []) if g.static and g.file == f.file]
+    tells = [(g, n, rhs) for g in grp14 for (lv, n, rhs) in assigned_lvalues(g) if lv == 'psf->fileoffset' and rhs is not None and g.unwrap(rhs).get('callee') == 'psf_ftell']
     ctx.require(tells, 'psf_open_file no longer records fileoffset = psf_ftell')
-    for (lv, n, rhs) in tells:
-        seeks = [c for c in f.calls('psf_fseek') if f.s(f.args(c)[1]) == '0' and f.unwrap(f.args(c)[2]).get('v') == 2]
-        # the seek must be in the same case arm and dominate the tell
-        ok = any(f.cfg.dominates(c, n) and f.cfg.point(c)[0] == f.cfg.point(n)[0] for c in seeks)
-        ctx.ob('EMBED', 'write-append', ok, f.loc(n), 'fileoffset = psf_ftell (psf) %s' % ('taken after psf_fseek (psf, 0, SEEK_END) in the same arm' if ok else
+    for (g, n, rhs) in tells:
+        seeks = [c for c in g.calls('psf_fseek') if g.s(g.args(c)[1]) == '0' and g.unwrap(g.args(c)[2]).get('v') == 2]
+        # the seek must be in the same arm and dominate the tell
+        ok = any(g.cfg.dominates(c, n) and g.cfg.point(c)[0] == g.cfg.point(n)[0] for c in seeks)
+        ctx.ob('EMBED', 'write-append', ok, g.loc(n), 'fileoffset = psf_ftell (psf) %s' % ('taken after psf_fseek (psf, 0, SEEK_END) in the same arm' if ok else
                'NOT preceded by psf_fseek (psf, 0, SEEK_END): an embedded write would overwrite the container in place'), None)
-    rdwr = [n for (lv, n, rhs) in assigned_lvalues(f) if rhs is not None and f.s(rhs) == 'SFE_NO_EMBEDDED_RDWR']
-    ctx.ob('EMBED', 'rdwr-refused', bool(rdwr), f.loc(rdwr[0]) if rdwr else f.loc(f.body), 'embedded RDWR %s' % ('refused with SFE_NO_EMBEDDED_RDWR' if rdwr else 'no longer refused'), None)
+    succ, blob = explore14(E['SF_FORMAT_WAV'] | E['SF_FORMAT_PCM_16'], E['SFM_RDWR'])
+    okrw = (not succ) and any('SFE_NO_EMBEDDED_RDWR' in x for x in blob)
+    ctx.ob('EMBED', 'rdwr-refused', okrw, f.loc(f.body), 'embedded RDWR %s' % ('refused with SFE_NO_EMBEDDED_RDWR, no success path' if okrw else 'no longer refused'), None)
 
     ctx.rule('FD-VALID', 'every test of a descriptor value against a constant is `< 0`, `>= 0` or an (in)equality with a negative code: descriptor 0 is valid and must be closed like any other', floor=6)
     from engine.fdvalid import fd_valid
@@ -243,6 +251,9 @@ def run(ctx):
     nfo = 0
     for g in sorted(prog.lib_fns(), key=lambda g: (g.file, g.line)):
         if g.name in ('sf_open_fd', 'psf_open_file'):
+            continue
+        # a static helper of sndfile.c that only the open path calls is part of the open path
+        if g.static and g.file.endswith('/sndfile.c') and prog.callers.get(g.name) and set(prog.callers.get(g.name)) <= {'sf_open_fd', 'psf_open_file'}:
             continue
         for lv, a, r in _alo(g):
             if lv != 'psf->fileoffset':
